@@ -171,7 +171,12 @@ def mapping_job(rng, area, failure, tag, tmp_dir=True, obsm=False):
         fault = {'mode': mode, 'point': point}
         if failure.endswith('_slowsibling'):
             # the siblings are still at work when the failure is noticed
-            fault['save_delay'] = 0.6
+            # chunk 0's worker fails after 1 s -- by then its siblings have
+            # done their work and read everything they need -- and they
+            # save 2.5 s after finishing, i.e. well after the failed call
+            # has cleaned up and returned
+            fault['fail_delay'] = 1.0
+            fault['save_delay'] = 2.5
     real_failure = failure if failure not in ('unwritable_output',
                                               'unwritable_hdf5') \
         and fault is None else 'success'
